@@ -62,10 +62,11 @@ def make_roms(fname, *, imax, jmax, N, times, mask=None, h=None, dx=128.0, dy=No
         U = np.zeros((nt, N, jmax, imax - 1)) if U is None else U
         V = np.zeros((nt, N, jmax - 1, imax)) if V is None else V
         if pack:
-            mk("u", ("ocean_time", "s_rho", "eta_u", "xi_u"), np.round(U / pack).astype("i2"), "i2",
-               scale_factor=np.float32(pack), add_offset=np.float32(0))
-            mk("v", ("ocean_time", "s_rho", "eta_v", "xi_v"), np.round(V / pack).astype("i2"), "i2",
-               scale_factor=np.float32(pack), add_offset=np.float32(0))
+            pu, pv = pack if isinstance(pack, (tuple, list)) else (pack, pack)
+            mk("u", ("ocean_time", "s_rho", "eta_u", "xi_u"), np.round(U / pu).astype("i2"), "i2",
+               scale_factor=np.float32(pu), add_offset=np.float32(0))
+            mk("v", ("ocean_time", "s_rho", "eta_v", "xi_v"), np.round(V / pv).astype("i2"), "i2",
+               scale_factor=np.float32(pv), add_offset=np.float32(0))
         else:
             mk("u", ("ocean_time", "s_rho", "eta_u", "xi_u"), U, "f4")
             mk("v", ("ocean_time", "s_rho", "eta_v", "xi_v"), V, "f4")
